@@ -200,6 +200,12 @@ fn mk_buf(len: usize, tag: u8) -> Box<[u8]> {
 impl Harness {
     pub fn new(c: QCfg) -> Option<Harness> {
         let (t, q) = setup_bare(&c);
+        if c.size <= 16 {
+            with(|w| {
+                let snap = w.driver_areas(c.qidx);
+                w.store_audit = snap.map(|s| (c.qidx, s));
+            });
+        }
         match q {
             Ok(q) => Some(Harness {
                 c,
@@ -847,6 +853,7 @@ pub fn history() {
             break;
         }
         h.random_op(8192);
+        with(|w| w.audit_stores(c.qidx, None));
         op_point();
     }
     h.finish();
@@ -876,18 +883,24 @@ pub fn wrap_history() {
     with(|w| {
         w.cfg.step_at_stores = false;
         w.cfg.step_eighths = 0;
+        w.quiet = true;
+        w.personality::<PatternDevice>().full_len = true;
     });
     h.light = true;
     let target = 0u16.wrapping_sub(margin).wrapping_sub(c.size as u16);
+    // The fast-forward phase is driven by a local generator seeded from ONE tape value, so the
+    // tape (and with it the replay file and the shrinker's work) stays small: the interesting
+    // choices are the configuration above and the random phase across the wrap below.
+    let mut local = crate::rng::Xoshiro::new(choose(u64::MAX));
     let mut guard = 0u32;
     while h.avail != target && !violated() {
         let room = h.free().min(target.wrapping_sub(h.avail) as usize);
-        let batch = 1 + choose(room.max(1) as u64) as usize;
+        let batch = 1 + (local.next() % room.max(1) as u64) as usize;
         for _ in 0..batch.min(room.max(1)) {
-            let two = !c.indirect && h.free() >= 2 && flip(1, 4);
+            let two = !c.indirect && h.free() >= 2 && local.next() % 4 == 0;
             if two {
                 h.add(1, 1, &[2, 2]);
-            } else if flip(1, 2) {
+            } else if local.next() % 2 == 0 {
                 h.add(1, 0, &[2]);
             } else {
                 h.add(0, 1, &[2]);
@@ -906,6 +919,8 @@ pub fn wrap_history() {
     with(|w| {
         w.cfg.step_at_stores = true;
         w.cfg.step_eighths = 4;
+        w.quiet = false;
+        w.personality::<PatternDevice>().full_len = false;
     });
     h.light = false;
     nontrivial();
@@ -968,4 +983,128 @@ pub fn blocking_history() {
         op_point();
     }
     drop(p);
+}
+
+/// Sweep of the notification predicate (C05 a) - cheap enough to enumerate: the available index
+/// is walked through all 65536 values on a real event-idx queue; at every value the device's
+/// `avail_event` field is set to candidate values and `should_notify()` is compared with the
+/// specification's `vring_need_event(event, new, old)`: whenever the specification says "notify",
+/// the driver must say so too. Quick tier: batch sizes 1, 2 and SIZE with a band of event values
+/// around the batch and the extremes; thorough tier: additionally the complete 2^16 x 2^16
+/// (index, event) square for batch size 1.
+pub fn notify_sweep(t: crate::runner::Tier) -> crate::runner::ExtraResult {
+    use std::sync::Mutex;
+    use std::sync::atomic::{AtomicU64, Ordering};
+    let full = t == crate::runner::Tier::Thorough;
+    let evals = AtomicU64::new(0);
+    let bad: Mutex<Vec<(String, String)>> = Mutex::new(Vec::new());
+    let nthreads = 16u32;
+    std::thread::scope(|sc| {
+        for th in 0..nthreads {
+            let evals = &evals;
+            let bad = &bad;
+            std::thread::Builder::new()
+                .stack_size(64 << 20)
+                .spawn_scoped(sc, move || {
+                    let mut w = World::new(crate::rng::Tape::generate(th as u64), WorldCfg::default());
+                    w.cfg.device_active = false;
+                    install(w);
+                    let c = QCfg { size: 4, qidx: 0, indirect: false, event_idx: true, ap: false, legacy: false };
+                    let (tr, q) = setup_bare(&c);
+                    let Ok(mut q) = q else { return };
+                    // host pointer of the device-written avail_event field
+                    let ev_ptr = with(|w| {
+                        let r = &w.tr.queues[0];
+                        let a = r.device + 4 + 8 * r.size as u64;
+                        let reg = w.hal.find_dma(a, 2).expect("used ring in DMA memory");
+                        (reg.vaddr + (a - reg.paddr) as usize) as *mut u16
+                    });
+                    let buf = [0u8; 1];
+                    let start = th * (65536 / nthreads);
+                    let end = start + 65536 / nthreads;
+                    let mut avail: u32 = 0;
+                    let mut local = 0u64;
+                    let mut step = |q: &mut Box<dyn QApi>, n: u32, avail: &mut u32| {
+                        // n submissions, then the device serves and the driver consumes them
+                        let mut toks = Vec::new();
+                        for _ in 0..n {
+                            // SAFETY: `buf` outlives the queue
+                            toks.push(unsafe { q.add(&[&buf], &mut []) }.expect("add"));
+                            *avail += 1;
+                        }
+                        toks
+                    };
+                    let finish = |q: &mut Box<dyn QApi>, toks: Vec<u16>| {
+                        with(|w| {
+                            w.dq[0].notified = true;
+                            w.drain_device();
+                        });
+                        for _ in 0..toks.len() {
+                            let t = q.peek_used().expect("completion");
+                            // SAFETY: same buffer
+                            unsafe { q.pop_used(t, &[&buf], &mut []) }.expect("pop");
+                        }
+                        with(|w| w.dq[0].used_fifo.clear());
+                    };
+                    // walk to the start of this thread's slice
+                    while avail < start {
+                        let toks = step(&mut q, 1, &mut avail);
+                        finish(&mut q, toks);
+                    }
+                    while avail < end && bad.lock().unwrap().is_empty() {
+                        let batch = if full { 1 } else { [1u32, 2, 4][(avail % 3) as usize] };
+                        let old = avail as u16;
+                        let toks = step(&mut q, batch.min(end - avail), &mut avail);
+                        let new = avail as u16;
+                        let mut check = |event: u16, local: &mut u64| {
+                            // SAFETY: points into live DMA memory of this thread's queue
+                            unsafe { ev_ptr.write_volatile(event) };
+                            let got = q.should_notify();
+                            *local += 1;
+                            if vring_need_event(event, new, old) && !got {
+                                let mut b = bad.lock().unwrap();
+                                if b.len() < 3 {
+                                    b.push((
+                                        "lost-notification@should_notify/sweep".to_string(),
+                                        format!("available index {old} -> {new} (batch {}), device asked for event index {event}: the specification requires a notification, should_notify() is false", new.wrapping_sub(old)),
+                                    ));
+                                }
+                            }
+                        };
+                        if full {
+                            for e in 0..=65535u16 {
+                                check(e, &mut local);
+                            }
+                        } else {
+                            for d in -8i32..=8 {
+                                check(old.wrapping_add(d as u16), &mut local);
+                                check(new.wrapping_add(d as u16), &mut local);
+                            }
+                            for e in [0u16, 1, 0x7fff, 0x8000, 0xfffe, 0xffff, old.wrapping_add(0x8000), new.wrapping_add(0x7fff)] {
+                                check(e, &mut local);
+                            }
+                        }
+                        // SAFETY: as above
+                        unsafe { ev_ptr.write_volatile(0) };
+                        finish(&mut q, toks);
+                    }
+                    evals.fetch_add(local, Ordering::Relaxed);
+                    drop(tr);
+                    drop(q);
+                    let _ = uninstall();
+                })
+                .expect("spawn");
+        }
+    });
+    let violations = bad.into_inner().unwrap();
+    crate::runner::ExtraResult {
+        evaluations: evals.load(Ordering::Relaxed),
+        exhaustive: full,
+        description: if full {
+            "should_notify() vs vring_need_event for the complete 2^16 x 2^16 (available index, device event index) square at batch size 1, on a real event-idx VirtQueue walked through all index values".into()
+        } else {
+            "should_notify() vs vring_need_event for all 65536 available-index values, batch sizes 1/2/SIZE, event indices in a band of +-8 around both ends of the batch plus extremes".into()
+        },
+        violations,
+    }
 }
